@@ -19,7 +19,7 @@ from common import VERIF, run_shards
 
 PID = "C08"
 T_END = 2_600_000_003
-POLICIES = ["random", "random", "lifo", "hold-interrupts", "hold-component", "fifo"]
+POLICIES = ["random", "random", "lifo", "hold-interrupts", "hold-component", "fifo", "ack", "ack", "ack-per-topic"]
 
 
 def cones(cfg):
@@ -68,6 +68,12 @@ def make_bus(policy, bseed, cfg):
         comps = [c for lv in cfg.values() for (c, _) in lv["order"]]
         victim = slevel.cname(rng.choice(comps))
         return cbus.CBus(rng, "hold", hold=lambda cons, topic, msg: topic.endswith(victim + "-out") or topic.endswith(victim + "-in"))
+    if policy == "ack":
+        # a broker that acknowledges: produce() returns up to 60 event-loop steps after the message became deliverable
+        return cbus.CBus(rng, "random", ack=[0, 1, 3, 8, 20, 60])
+    if policy == "ack-per-topic":
+        # ... and the topics of one consumer are read independently of one another (free cross-topic order even within a consumer)
+        return cbus.CBus(rng, "random", ack=[0, 1, 3, 8, 20, 60], per_topic=True)
     return cbus.CBus(rng, policy)
 
 
@@ -103,7 +109,7 @@ def net_part(ck, tier, rng):
                       ({1: dict(order=[(3, "dev"), (4, 2), (8, "dev")], conns=[(3, 1, 8, 1), (4, 1, 8, 2)]),
                         2: dict(order=[(5, "dev"), (6, "dev")], conns=[(5, 1, 6, 1), (6, 1, 2, 1)])},
                        {3: (24, 400_000_000, 1), 5: (25, 400_000_000, 1), 6: (26, 1_000_000_000, 0), 8: (27, 1_000_000_000, 0)})):
-        corpus.append(dict(cfg=cfg, devs=devs, stim=[], schedules=[(pol, 7 + j) for j, pol in enumerate(["lifo", "random", "hold-component", "random", "fifo"])]))
+        corpus.append(dict(cfg=cfg, devs=devs, stim=[], schedules=[(pol, 7 + j) for j, pol in enumerate(["lifo", "random", "hold-component", "random", "fifo", "ack", "ack-per-topic"])]))
     for i in range(len(corpus) + n):
         if i < len(corpus):
             case = corpus[i]      # minimised regression cases run first
